@@ -125,10 +125,9 @@ def check(case, ctx):
     late_def = None
     if late:
         # the effects of one dataset are attached with add_effects() only after the graph has been in use
-        derived_from = set()
-        specgen.walk(spec, lambda n: derived_from.add(n["base"]) if n["k"] == "derived" else None)
-        # (objects derived from a dataset before the attachment are datasets of their own and keep their effect lists)
-        late_def = [d for d in spec["defs"] if d.get("effects") and d["name"] not in derived_from]
+        # (objects derived from a dataset before the attachment are datasets of their own and keep their effect lists:
+        # the effects are attached to them as well, so that the specification with effects describes all of them)
+        late_def = [d for d in spec["defs"] if d.get("effects")]
         late_def = late_def[late["def"] % len(late_def)] if late_def else None
     if late_def:
         early = copy.deepcopy(spec)
@@ -192,7 +191,13 @@ def check(case, ctx):
         if i == attach_at:
             if late.get("touch"):
                 run(getattr(G.ds[late_def["name"]], late["touch"]), hist[i - 1])
-            G.ds[late_def["name"]].add_effects(*[G._effect(e) for e in late_def["effects"]])
+            targets = [G.ds[late_def["name"]]] + [dd for base, dd in G.derived if base == late_def["name"]]
+            order = late.get("order", 0)
+            targets = targets[order % len(targets):] + targets[:order % len(targets)]
+            for tgt in targets:
+                tgt.add_effects(*[G._effect(e) for e in late_def["effects"]])
+            if len(targets) > 1:
+                labels.add("effects-attached-to-parent-and-derived")
             # the effects' own options now belong to the dataset's keys: everything stored so far may be recomputed
             runs.clear(); bound_sets.clear(); failed_visits.clear()
             labels.add("effects-attached-after-use")
@@ -295,7 +300,7 @@ def cases(draw, prof, maxlen):
     case = {"spec": spec, "steps": steps}
     if any(d.get("effects") for d in spec["defs"]) and draw(st.integers(0, 2)) == 0:
         case["late_effects"] = {"def": draw(st.integers(0, 5)), "at": draw(st.integers(0, 15)),
-                                "touch": draw(st.sampled_from([None, "validate", "keys", "explain"]))}
+                                "touch": draw(st.sampled_from([None, "validate", "keys", "explain"])), "order": draw(st.integers(0, 3))}
     return case
 
 
